@@ -11,6 +11,7 @@ static uint8_t *exact_copy(const uint8_t *src, size_t n) {
     EB_CASE(0) EB_CASE(1) EB_CASE(2) EB_CASE(3) EB_CASE(4) EB_CASE(5) EB_CASE(6) EB_CASE(7) EB_CASE(8)
     EB_CASE(9) EB_CASE(10) EB_CASE(11) EB_CASE(12) EB_CASE(13) EB_CASE(14) EB_CASE(15) EB_CASE(16)
     EB_CASE(17) EB_CASE(18) EB_CASE(19) EB_CASE(20) EB_CASE(21) EB_CASE(22) EB_CASE(23) EB_CASE(24)
+    EB_CASE(25) EB_CASE(26) EB_CASE(27) EB_CASE(28) EB_CASE(29) EB_CASE(30) EB_CASE(31) EB_CASE(32) EB_CASE(33) EB_CASE(34) EB_CASE(35) EB_CASE(36) EB_CASE(37) EB_CASE(38) EB_CASE(39) EB_CASE(40)
 #undef EB_CASE
     default: __CPROVER_assume(0);
     }
